@@ -163,4 +163,18 @@ PROPS = {
         assumptions=["fingerprint = live (size, align) multiset, maps line count, VmSize, task count; the allocator's internal free lists are C04's concern",
                      "ordering at gate granularity; x86_64 debug build"],
     ),
+
+    "C03": dict(
+        level="exploration",
+        technique="exhaustive enumeration of bounded malloc/calloc/realloc/free histories, size-class boundary sweeps from seed heaps, every mmap placement script and every refused mmap/mremap, on the real Dlmalloc with its system calls answered by a model kernel for anonymous memory (syscall seam); shadow-map oracle after every call",
+        steps=[_s("h-alloc", "hist"), _s("h-alloc", "boundary"), _s("h-alloc", "placement"), _s("h-alloc", "oom")],
+        assumptions=["the model kernel places mappings inside a reserved arena (below / above-adjacent / disjoint) and turns unmapped ranges into PROT_NONE, so any touch of returned memory faults",
+                     "histories to a bounded depth with <= 3 live blocks over a representative size alphabet; boundary sweep from a fixed set of seed heap states"],
+    ),
+    "C04": dict(
+        level="model_checking",
+        technique="lasso detection: every allocate-all/free-all workload of an enumerated family is iterated on the real allocator (model kernel) until the full allocator state recurs; a recurrence proves the footprint periodic, hence bounded for every repetition count",
+        steps=[_s("h-alloc", "lasso")],
+        assumptions=["state = allocator struct bytes + all mapped bytes + mapping table, compared by fingerprint", "workloads of <= 3 (thorough 4) blocks over a size alphabet, three placement policies; the multi-threaded clause reduces to the sequential one through the global Mutex (C01)"],
+    ),
 }
